@@ -164,6 +164,8 @@ ApiModel buildApiModel(uint64_t seed, int variant, const ApiOpts* optsIn) {
 		if (!shape) return M;
 		if (!withNormals) mesh.normals.clear();
 		M.shapeNames.push_back(name);
+		if (o.modelSpace)
+			if (auto bsp = dynamic_cast<BSShaderProperty*>(nif.GetShader(shape))) bsp->shaderFlags1 |= SLSF1_MODEL_SPACE_NORMALS;
 		bool colors = o.colors || rng.coin(4);
 		if (colors) {
 			std::vector<Color4> cols((size_t)nv);
@@ -298,7 +300,7 @@ std::string applyRandomEdits(NifFile& nif, Rng& rng, int n) {
 	auto& hdr = nif.GetHeader();
 	for (int k = 0; k < n; k++) {
 		auto shapes = nif.GetShapes();
-		int op = (int)rng.below(12);
+		int op = (int)rng.below(14);
 		switch (op) {
 			case 0:
 				if (!shapes.empty()) {
@@ -387,6 +389,29 @@ std::string applyRandomEdits(NifFile& nif, Rng& rng, int n) {
 				break;
 			case 9: log += "deleteUnreferenced;"; nif.DeleteUnreferencedBlocks(); break;
 			case 10: log += "prettySort;"; nif.PrettySortBlocks(); break;
+			case 12:
+			case 13: {
+				// detach: clear one non-empty owning reference of a random block; whatever hung below it becomes a loose sub-graph
+				// (in sorted files such sub-graphs are stored child-before-parent, e.g. Havok collision trees)
+				uint32_t nb = hdr.GetNumBlocks();
+				for (int tries = 0; tries < 8 && nb > 1; tries++) {
+					uint32_t id = rng.below(nb);
+					auto o = hdr.GetBlock<NiObject>(id);
+					if (!o || o->HasType<NiShape>()) continue;   // a shape keeps a raw pointer to its data block (see the C06 finding)
+					std::set<NiRef*> refs;
+					o->GetChildRefs(refs);
+					std::vector<NiRef*> live;
+					for (auto r : refs)
+						if (!r->IsEmpty() && r->index < nb && !hdr.GetBlock<NiGeometryData>(r->index)) live.push_back(r);
+					if (live.empty()) continue;
+					std::sort(live.begin(), live.end(), [](NiRef* a, NiRef* b) { return a->index < b->index; });
+					NiRef* r = live[rng.below((uint32_t)live.size())];
+					log += fmt("detach(%u:%s -> %u:%s);", id, hdr.GetBlockTypeStringById(id).c_str(), r->index, hdr.GetBlockTypeStringById(r->index).c_str());
+					r->Clear();
+					break;
+				}
+				break;
+			}
 			case 11:
 				if (!shapes.empty()) {
 					auto s = shapes[rng.below((uint32_t)shapes.size())];
